@@ -306,7 +306,9 @@ def decide(prop, tier, seed, keep=None):
         # harness is a violation with the verifier's concrete counterexample; a passing one leaves the unit undecided
         if tier != 'thorough':
             und = {r['unit'] for r in results if r['status'] == 'undecided' and ':' not in r['unit']}
-            esc = {n: pu for n, pu in mine.items() if n in und and pu[1].get('kani')}
+            # every unit of the property that has bounded Kani second opinions takes part (the function that a
+            # Verus unit could not read is often covered by a Kani-only sibling unit, e.g. codecs2 / hexcodec)
+            esc = {n: pu for n, pu in mine.items() if und and pu[1].get('kani')}
             if esc:
                 already = {o['id'] for r in kres for o in r['obligations']}
                 for r in kani.run_units_kani(esc, 'thorough', work, only_props=[prop], tag=prop + '_esc'):
